@@ -7,9 +7,10 @@ and fails with it, and the pinned suite (651 tests) still passes with the patch.
 import json, os, re, shutil, subprocess, sys
 
 deliver, prop, name = sys.argv[1], sys.argv[2], sys.argv[3]
-WT = "/tmp/pvc-confirm/repo"
-TGT = "/tmp/pvc-confirm/target"
-os.makedirs("/tmp/pvc-confirm", exist_ok=True)
+BASE = os.environ.get("CONFIRM_DIR", "/tmp/pvc-confirm")   # several confirmations in parallel need different scratch locations
+WT = BASE + "/repo"
+TGT = BASE + "/target"
+os.makedirs(BASE, exist_ok=True)
 env = dict(os.environ, CARGO_TARGET_DIR=TGT, CARGO_NET_OFFLINE="true")
 
 def sh(cmd, cwd=WT, timeout=3600):
@@ -56,7 +57,7 @@ try:
     rc1, out1 = sh(demo_cmd)
     result["demo_with_patch_exit"] = rc1
     result["demo_with_patch_tail"] = out1[-600:]
-    suite = "cargo nextest run --workspace --no-fail-fast --tool-config-file pb:/w/lib/nextest.toml --profile pb --test-threads 8 --offline"
+    suite = "cargo nextest run --workspace --no-fail-fast --tool-config-file pb:/w/lib/nextest.toml --profile pb --test-threads " + os.environ.get("CONFIRM_THREADS", "8") + " --offline"
     # the demo is not part of the pinned suite: remove it before running the suite
     os.remove(dest)
     rcs, outs = sh(suite)
